@@ -5,6 +5,9 @@ import CifModel.Model.Ladder
     ladder dup <n> <k>                      dup_ustrings on n strings, k-th allocation fails (0 = none)
     ladder clone <shape…> <k>               cif_value_clone of a value of the given shape into a fresh target
     ladder insert <full 0|1> <shape…> <k>   cif_value_insert_element_at, array full or not
+    ladder set <shape…> <k>                 cif_value_set_element_at: clone into the existing element object
+    ladder names <n> <k>                    cif_loop_get_names on a stored loop with n item names (the code as it is:
+                                            getNamesPinned)
   shape tokens: S (unknown/na) | C (char) | M0 | M1 (number without / with su) | [ shape* ]
   answer: `ld rc=<code> allocs=<n> fails=<ids> frees=<sorted ids> live=<sorted ids>` — order-insensitive on purpose:
   the order in which a clean-up ladder releases blocks is not constrained by any property.
@@ -56,6 +59,14 @@ def handle : Handler
       let n ← n.toNat?; let k ← k.toNat?
       let (rc, _, st) := dupUstrings k n
       pure (summary rc st.evs)
+  | ["names", n, k] => do
+      let n ← n.toNat?; let k ← k.toNat?
+      let (rc, _, st) := getNamesPinned k n
+      pure (summary rc st.evs)
+  | ["namesfixed", n, k] => do                 -- the repaired variant (used when testing the proposed patch by hand)
+      let n ← n.toNat?; let k ← k.toNat?
+      let (rc, _, st) := getNames k n
+      pure (summary rc st.evs)
   | "clone" :: rest => do
       let (sh, r) ← parseShape (rest.length + 1) rest
       match r with
@@ -71,6 +82,14 @@ def handle : Handler
       | [k] => do
           let k ← k.toNat?
           let (rc, _, st) := insertElement k full sh
+          pure (summary rc st.evs)
+      | _ => none
+  | "set" :: rest => do
+      let (sh, r) ← parseShape (rest.length + 1) rest
+      match r with
+      | [k] => do
+          let k ← k.toNat?
+          let (rc, _, st) := setElement k sh
           pure (summary rc st.evs)
       | _ => none
   | _ => none
